@@ -31,20 +31,22 @@ impl Bytes {
 /// ntex_bytes::Buf (the subset the repo uses)
 pub trait Buf {
     spec fn buf_view(&self) -> Seq<u8>;
+    /// ghost: number of bytes consumed from this buffer so far
+    spec fn buf_pos(&self) -> nat;
     fn remaining(&self) -> (r: usize) ensures r == self.buf_view().len();
     fn has_remaining(&self) -> (r: bool) ensures r == (self.buf_view().len() > 0);
     fn get_u8(&mut self) -> (r: u8)
         requires old(self).buf_view().len() >= 1,
-        ensures r == old(self).buf_view()[0], final(self).buf_view() == old(self).buf_view().skip(1);
+        ensures r == old(self).buf_view()[0], final(self).buf_view() == old(self).buf_view().skip(1), final(self).buf_pos() == old(self).buf_pos() + 1;
     fn get_u16(&mut self) -> (r: u16)
         requires old(self).buf_view().len() >= 2,
-        ensures r == be16_val(old(self).buf_view()), final(self).buf_view() == old(self).buf_view().skip(2);
+        ensures r == be16_val(old(self).buf_view()), final(self).buf_view() == old(self).buf_view().skip(2), final(self).buf_pos() == old(self).buf_pos() + 2;
     fn get_u32(&mut self) -> (r: u32)
         requires old(self).buf_view().len() >= 4,
-        ensures r == be32_val(old(self).buf_view()), final(self).buf_view() == old(self).buf_view().skip(4);
+        ensures r == be32_val(old(self).buf_view()), final(self).buf_view() == old(self).buf_view().skip(4), final(self).buf_pos() == old(self).buf_pos() + 4;
     fn advance(&mut self, cnt: usize)
         requires cnt <= old(self).buf_view().len(),
-        ensures final(self).buf_view() == old(self).buf_view().skip(cnt as int);
+        ensures final(self).buf_view() == old(self).buf_view().skip(cnt as int), final(self).buf_pos() == old(self).buf_pos() + cnt;
 }
 pub open spec fn be16_val(s: Seq<u8>) -> u16 { ((s[0] as u16) * 256 + (s[1] as u16)) as u16 }
 pub open spec fn be32_val(s: Seq<u8>) -> u32 {
@@ -54,8 +56,10 @@ pub open spec fn be16(n: u16) -> Seq<u8> { seq![(n / 256) as u8, (n % 256) as u8
 pub open spec fn be32(n: u32) -> Seq<u8> {
     seq![(n / 16777216) as u8, ((n / 65536) % 256) as u8, ((n / 256) % 256) as u8, (n % 256) as u8]
 }
+impl Bytes { pub uninterp spec fn vx_consumed(&self) -> nat; }
 impl Buf for Bytes {
     open spec fn buf_view(&self) -> Seq<u8> { self@ }
+    open spec fn buf_pos(&self) -> nat { self.vx_consumed() }
     #[verifier::external_body]
     fn remaining(&self) -> (r: usize) { self.inner.len() }
     #[verifier::external_body]
